@@ -1,9 +1,9 @@
 from engine.core import Job
 META = dict(
     level="other",
-    claim="Conditional-inclusion skipping and include search order on the real preprocess.c: skip_line returns the next line start (extra tokens ignored); search_include_paths returns the first existing candidate in directory order and positions #include_next after it, search_include_next continues from there, for every existence pattern over 4 directories.",
+    claim="Conditional-inclusion skipping and include search order on the real preprocess.c: skip_line returns the next line start (extra tokens ignored); push_cond_incl records a group as taken iff the full 64-bit controlling value is non-zero; search_include_paths returns the first existing candidate in directory order and positions #include_next after it, search_include_next continues from there, for every existence pattern over 4 directories.",
     note="Bounded (4 tokens / 4 directories); group skipping (skip_cond_incl) is not covered (tool limit). Assumed: format() yields the i-th candidate path, file_exists is a pure predicate of an unchanging file system, the include memo table is empty (first lookup). Not covered: taken-branch bookkeeping in preprocess2, #if expression evaluation (see C07), include guard detection, -idirafter ordering in main.c.",
-    functions=["preprocess.c:skip_line", "preprocess.c:is_hash", "preprocess.c:search_include_paths", "preprocess.c:search_include_next"],
+    functions=["preprocess.c:push_cond_incl", "preprocess.c:skip_line", "preprocess.c:is_hash", "preprocess.c:search_include_paths", "preprocess.c:search_include_next"],
     trusted_base=["CBMC 6.11"],
     assumptions=["ghost format()/file_exists()", "empty include cache", "equal(tok, s) holds iff the token's spelling is s (ghost stub of tokenize.c equal)"],
     explanation="bounded symbolic harnesses on real preprocess.c functions against spec scanners",
@@ -16,5 +16,9 @@ def jobs(tier):
         # skip_cond_incl / skip_cond_incl2 (recursive over the token list) are NOT run: symbolic execution of the recursion over a
         # symbolic token list did not finish for lists of 4 tokens, neither inlined (path explosion after the recursive call
         # returns a merged pointer) nor under a DFCC recursive contract (SAT out of memory at 10 GB).  See DESIGN.md I.4.
+        # cond.c scenarios 0-2 (real preprocess2 on concrete #ifdef/#else/#endif skeletons) are NOT run: symbolic execution of
+        # preprocess2 (a 150-line dispatcher whose every arm is reachable for the verifier) did not finish in 10 minutes.
+        Job(name="push_cond_incl", src="cond.c", group="C10.3 taken-branch bookkeeping", defs={"SCEN": "9"}, mode="plain", cut=CUT, havoc=["warn_tok"], unwind=8, timeout=300, replay=None,
+            bounded="single call", sample="push_cond_incl with every 64-bit controlling value"),
         Job(name="search_include", src="search.c", group="C10.5 include search order", unwind=8, bounded="4 include directories", sample="search_include_paths/next over every existence pattern of 4 directories", **P),
     ]
